@@ -250,89 +250,203 @@ def kw(call, name):
     return None
 
 
+# --------------------------------------------------------------------------- the run loop, read by ROLE from a traced run
+def trace_run_loop():
+    """One and two iterations of the REAL MCMC.run on instrumented public objects (a stub operator overriding the public
+    step/accept/reject/tune, a stub joint, a stub logger, torch.rand and Categorical.sample wrapped, save_full_state
+    replaced): the ORDER of select / propose / evaluate+uniform (decide) / accept-or-restore / log / tune / counter /
+    checkpoint, the iteration number loggers and tune receive, and the decision table over finite / +inf / -inf / nan
+    Hastings ratios and finite / nan / +-inf proposed densities.  Independent of how run() is split into helpers or what
+    its locals are called.  -> (initial, order, decide_ok, accept_ok, loop_failure_tests, problems)"""
+    import contextlib
+    import io
+    import math
+
+    import torch
+    from torchtree.core.parameter import Parameter
+    from torchtree.inference.mcmc.mcmc import MCMC
+    from torchtree.inference.mcmc.operator import MCMCOperator
+
+    def scenario(hrs, lps, us, iterations):
+        events = []
+        x = Parameter("x", torch.tensor([1.0], dtype=torch.float64))
+        holder = {}
+
+        def it_now():
+            return holder["mc"].state_dict()["iteration"]
+
+        class Op(MCMCOperator):
+            tuning_parameter = property(lambda self: 1.0)
+            adaptable_parameter = property(lambda self: 0.0)
+
+            def set_adaptable_parameter(self, value):
+                pass
+
+            def _step(self):
+                k = len([e for e in events if e[0] == "propose"]) - 1
+                x.tensor = x.tensor + 1.0
+                return torch.tensor(hrs[k], dtype=torch.float64)
+
+            def step(self):
+                events.append(("propose", it_now()))
+                return super().step()
+
+            def accept(self):
+                events.append(("accept", it_now(), x.tensor.tolist()))
+                return super().accept()
+
+            def reject(self):
+                r = super().reject()
+                events.append(("reject", it_now(), x.tensor.tolist()))
+                return r
+
+            def tune(self, acceptance_prob, sample, accepted):
+                events.append(("tune", it_now(), sample, float(acceptance_prob), bool(accepted)))
+
+            def _state_dict(self):
+                return {}
+
+            def _load_state_dict(self, state_dict):
+                pass
+
+            @classmethod
+            def from_json(cls, data, dic):
+                raise NotImplementedError
+
+        class Joint:
+            id = "joint"
+
+            def __call__(self):
+                k = len([e for e in events if e[0] == "evaluate"])
+                events.append(("evaluate", it_now() if "mc" in holder else None))
+                return torch.tensor(lps[k], dtype=torch.float64)
+
+        class Lg:
+            def initialize(self):
+                pass
+
+            def log(self, *a, **k):
+                events.append(("log", it_now(), k.get("sample"), x.tensor.tolist()))
+
+            def close(self):
+                pass
+
+        op = Op("op", [x], 1.0, 0.24, disable_adaptation=True)
+        mc = MCMC("m", Joint(), [op], iterations, loggers=[Lg()], checkpoint="ck.json", checkpoint_frequency=1, every=0)
+        holder["mc"] = mc
+        mc.save_full_state = lambda: events.append(("checkpoint", it_now()))
+        o_rand, o_cat = torch.rand, torch.distributions.Categorical.sample
+        uq = list(us)
+
+        def rand(*a, **k):
+            events.append(("uniform", it_now()))
+            return torch.tensor([uq.pop(0)], dtype=torch.float32)
+
+        def cat_sample(d, sample_shape=torch.Size()):
+            events.append(("select", it_now()))
+            return torch.tensor(0)
+
+        torch.rand, torch.distributions.Categorical.sample = rand, cat_sample
+        try:
+            with contextlib.redirect_stdout(io.StringIO()):
+                mc.run()
+        finally:
+            torch.rand, torch.distributions.Categorical.sample = o_rand, o_cat
+        return events, x.tensor.tolist()
+
+    problems = []
+    # ---- order: two accepted-then-rejected iterations with finite everything
+    ev, _x = scenario([0.5, -0.25], [-3.0, -1.0, -2.0], [0.0, 0.999], 2)
+    first = next(i for i, e in enumerate(ev) if e[0] == "select")
+    initial = []
+    for e in ev[:first]:
+        if e[0] == "log":
+            if e[2] != 0:
+                problems.append("initial logger row is not sample=0")
+            initial.append(".logInitial")
+        elif e[0] == "evaluate":
+            initial.append(".evaluateInitial")
+    second = [i for i, e in enumerate(ev) if e[0] == "select"][1]
+    it1 = ev[first:second]
+    start_iter = it1[0][1]
+    order, decided, counter_done = [], False, False
+    for e in it1:
+        if e[1] is not None and e[1] != start_iter and not counter_done:
+            order.append(".counter")
+            counter_done = True
+        ref = lambda sample: ".epochBefore" if sample == start_iter else ".epochAfter" if sample == start_iter + 1 else None
+        if e[0] == "select":
+            order.append(".select")
+        elif e[0] == "propose":
+            order.append(".propose")
+        elif e[0] in ("evaluate", "uniform"):
+            if not decided:
+                order.append(".decide")
+                decided = True
+        elif e[0] in ("accept", "reject"):
+            order.append(".acceptReject")
+        elif e[0] == "log":
+            if ref(e[2]) is None:
+                problems.append(f"logger received sample {e[2]} in iteration {start_iter}")
+            order.append(f"(.log {ref(e[2]) or '.epochAfter'})")
+        elif e[0] == "tune":
+            want = min(1.0, math.exp((-1.0 - -3.0) + 0.5))
+            a0 = abs(e[3] - want) < 1e-12
+            order.append(f"(.tune {ref(e[2]) or '.epochAfter'} {'true' if a0 else 'false'} {'true' if e[4] is True else 'false'})")
+        elif e[0] == "checkpoint":
+            order.append(".checkpoint")
+    if not counter_done:
+        order.append(".counter")
+    # ---- accept / restore block: iteration 1 accepted (u = 0), iteration 2 rejected (u ~ 1, prob = exp(-1-0.25) if the
+    #      carried value was updated to -1 on accept)
+    accept_ok = True
+    acc_events = [e for e in ev if e[0] in ("accept", "reject")]
+    tunes = [e for e in ev if e[0] == "tune"]
+    if [e[0] for e in acc_events] != ["accept", "reject"]:
+        accept_ok = False
+    elif acc_events[0][2] != [2.0] or acc_events[1][2] != [2.0]:   # proposal kept, then restored
+        accept_ok = False
+    if len(tunes) != 2 or abs(tunes[1][3] - math.exp((-2.0 - -1.0) + -0.25)) > 1e-12 or tunes[1][4] is not False:
+        accept_ok = False   # the carried log density was not the accepted proposal's
+    logs = [e for e in ev[first:] if e[0] == "log"]
+    if [e[3] for e in logs] != [[2.0], [2.0]]:
+        accept_ok = False   # rows must show the state AFTER accept / restore
+    # ---- decision table
+    decide_ok = True
+    tests = []
+    for name, hr in (("posInf", math.inf), ("negInf", -math.inf), ("nan", math.nan)):
+        e2, xe = scenario([hr], [-3.0, -1.0], [0.0], 1)
+        kinds = [e[0] for e in e2[[i for i, e in enumerate(e2) if e[0] == "select"][0]:]]
+        t_ = [e for e in e2 if e[0] == "tune"]
+        if "evaluate" not in kinds and "uniform" not in kinds and "reject" in kinds and t_ and t_[0][3] == 0.0 and t_[0][4] is False \
+                and xe == [1.0]:
+            tests.append(name)
+    for lp in (math.nan, math.inf, -math.inf):
+        e2, xe = scenario([0.5], [-3.0, lp], [0.0], 1)
+        kinds = [e[0] for e in e2[[i for i, e in enumerate(e2) if e[0] == "select"][0]:]]
+        t_ = [e for e in e2 if e[0] == "tune"]
+        if not ("evaluate" in kinds and "uniform" not in kinds and "reject" in kinds and t_ and t_[0][3] == 0.0 and xe == [1.0]):
+            decide_ok = False
+    for u, lp, hr in ((0.3, -3.2, 0.1), (0.9, -3.2, 0.1), (0.5, -2.0, 5.0), (0.99, -10.0, -3.0)):
+        e2, xe = scenario([hr], [-3.0, lp], [u], 1)
+        kinds = [e[0] for e in e2[[i for i, e in enumerate(e2) if e[0] == "select"][0]:]]
+        t_ = [e for e in e2 if e[0] == "tune"]
+        la = (lp - -3.0) + hr
+        prob = 1.0 if la >= 0 else math.exp(la)
+        if not (kinds.count("evaluate") == 1 and kinds.count("uniform") == 1 and kinds.index("evaluate") < kinds.index("uniform")
+                and t_ and abs(t_[0][3] - prob) < 1e-12 and t_[0][4] == (u < prob) and (("accept" in kinds) == (u < prob))):
+            decide_ok = False
+    return initial, order, decide_ok, accept_ok, tests, problems
+
+
 def translate(repo=None):
     notes, initial, order = [], [], []
     decide_ok = accept_ok = False
     tests, op_returns, mdefaults, optrows = [], [], [], []
     try:
-        from torchtree.inference.mcmc.mcmc import MCMC
-
-        fn = ast.parse(textwrap.dedent(inspect.getsource(MCMC.run))).body[0]
-        loops = [s for s in fn.body if isinstance(s, ast.While)]
-        if len(loops) != 1 or ast.unparse(loops[0].test) != "self._epoch <= self.iterations":
-            raise Unrecognised("MCMC.run: the while loop over self._epoch")
-        for st in fn.body[: fn.body.index(loops[0])]:
-            cs = calls_in(st)
-            if "logger.log" in cs:
-                c = [c for c in ast.walk(st) if isinstance(c, ast.Call) and dotted(c.func) == "logger.log"][0]
-                s0 = kw(c, "sample")
-                if not (isinstance(s0, ast.Constant) and s0.value == 0):
-                    raise Unrecognised("initial logger row is not sample=0")
-                initial.append(".logInitial")
-            if "self.joint" in cs:
-                if not (isinstance(st, ast.With) and ast.unparse(st.body[0]) == "log_joint = self.joint()"):
-                    raise Unrecognised("initial evaluation of the joint")
-                initial.append(".evaluateInitial")
-        incremented = False
-
-        def sample_ref(e):
-            if dotted(e) == "self._epoch":
-                return ".epochAfter" if incremented else ".epochBefore"
-            if dotted(e) == "completed":
-                return ".epochBefore"
-            raise Unrecognised("sample argument " + ast.unparse(e))
-
-        for st in loops[0].body:
-            src = ast.unparse(st)
-            cs = calls_in(st)
-            if isinstance(st, ast.If) and ast.unparse(st.test) == "handler.stop":
-                continue
-            if src.startswith("weights = "):
-                continue
-            if src.startswith("index_operator = ") and "torch.distributions.Categorical" in cs:
-                order.append(".select")
-                continue
-            if src == "operator = self._operators[index_operator]":
-                continue
-            if src == "hastings_ratio = operator.step()":
-                order.append(".propose")
-                continue
-            if isinstance(st, ast.If) and "hastings_ratio" in ast.unparse(st.test) and ".decide" not in order \
-                    and ".propose" in order:
-                tests = loop_tests(st.test)
-                # the block must have the modelled statement shape; its first test may be any recognised
-                # failure test (which values it catches is what `loopFailureTests` records)
-                expected = ast.parse(DECIDE).body[0]
-                expected.test = st.test
-                decide_ok = ast.dump(st) == ast.dump(expected)
-                order.append(".decide")
-                continue
-            if isinstance(st, ast.If) and ast.unparse(st.test) == "accepted":
-                accept_ok = ast.dump(st) == ast.dump(ast.parse(ACCEPT).body[0])
-                order.append(".acceptReject")
-                continue
-            if isinstance(st, ast.If) and "print" in cs and not (set(cs) - {"print", "hasattr"}):
-                continue
-            if isinstance(st, ast.For) and "logger.log" in cs:
-                c = [c for c in ast.walk(st) if isinstance(c, ast.Call) and dotted(c.func) == "logger.log"][0]
-                order.append(f"(.log {sample_ref(kw(c, 'sample'))})")
-                continue
-            if isinstance(st, ast.Expr) and isinstance(st.value, ast.Call) and dotted(st.value.func) == "operator.tune":
-                c = st.value
-                a0 = bool(c.args) and dotted(c.args[0]) == "acceptance_prob"
-                a2 = dotted(kw(c, "accepted")) == "accepted" if kw(c, "accepted") is not None else False
-                order.append(f"(.tune {sample_ref(kw(c, 'sample'))} {'true' if a0 else 'false'} {'true' if a2 else 'false'})")
-                continue
-            if src == "completed = self._epoch":
-                continue
-            if src == "self._epoch += 1":
-                incremented = True
-                order.append(".counter")
-                continue
-            if isinstance(st, ast.If) and "self.save_full_state" in cs:
-                order.append(".checkpoint")
-                continue
-            raise Unrecognised("statement in the loop body: " + src.splitlines()[0][:80])
+        initial, order, decide_ok, accept_ok, tests, problems = trace_run_loop()
+        if problems:
+            raise Unrecognised("; ".join(problems))
         op_returns = operator_failure_returns()
         mdefaults = mutable_defaults()
         optrows = option_defaults()
@@ -342,15 +456,15 @@ def translate(repo=None):
         notes.append(f"{type(e).__name__}: {e}")
     ok = not notes
     lines = ["import TTModel.C15_MCMC",
-             "/-! GENERATED by harness/translators/tr_runorder.py from `MCMC.run` — do not edit.",
+             "/-! GENERATED by harness/translators/tr_runorder.py from a traced run of the real `MCMC.run` (order, decision table) and from the operators' ASTs (sentinels, defaults) — do not edit.",
              "    " + "; ".join(notes), "-/", "namespace TTGen.C15_RunOrder", "open TT.C15", "",
              f"def translatorOk : Bool := {'true' if ok else 'false'}", "",
              "/-- before the loop -/", "def initial : List Phase := [" + ", ".join(initial) + "]", "",
-             "/-- top-level statements of the `while` body, in source order -/",
+             "/-- phases of one iteration in the order a traced run of the real MCMC.run performs them -/",
              "def order : List Phase := [" + ", ".join(order) + "]", "",
-             "/-- the decision block has exactly the shape `TT.C15.decideMove` mirrors -/",
+             "/-- the traced decision table (finite / +-inf / nan Hastings ratio x finite / nan / +-inf density x uniform) is `TT.C15.decideMove`'s -/",
              f"def decideBlockOk : Bool := {'true' if decide_ok else 'false'}",
-             "/-- the accept / restore block has exactly the shape `TT.C15.mcmcStep` mirrors -/",
+             "/-- traced accept / restore behaviour (proposal kept or restored before logging, carried density updated only on accept) is `TT.C15.mcmcStep`'s -/",
              f"def acceptBlockOk : Bool := {'true' if accept_ok else 'false'}", "",
              "/-- values of `hastings_ratio` the first test of the decision block sends to rejection without evaluating -/",
              "def loopFailureTests : List Sentinel := [" + ", ".join("." + t for t in tests) + "]", "",
